@@ -117,10 +117,11 @@ FAMILIES = {
             "b": M(y=P("1")),
             "c": C(P("1")),
             "u.{cid}": M(me=P("true")),
+            "c?o={cid}": C(P("2")),
         }),
         consts=dict(
             Conns=TSet(["c1", "c2"]), Vers=TSet(["latest", "1.1.1"]),
-            Rids=TSet(["a", "b", "c", "u.{cid}"]), CallRids=TSet(["a", "b", "u.{cid}"]), ResRids=TSet(["b", "c"]),
+            Rids=TSet(["a", "b", "c", "u.{cid}", "c?o={cid}"]), CallRids=TSet(["a", "b", "u.{cid}", "c?o={cid}"]), ResRids=TSet(["b", "c"]),
             Names=TSet(["a", "b", "c"]), Keys=TSet(["x"]),
             Vals=TSet([P("1"), P("2")]),
             AccessOuts=TSet(["ok", "ok", "deny", "nocall", "list", "callonly", "denied", "err", "timeout", "missing", "noresp"]),
@@ -226,7 +227,7 @@ FAMILIES["life"] = dict(
         AccessOuts=TSet(["ok", "ok", "timeout"]), GetOuts=TSet(["ok", "ok", "timeout"]),
         CallOuts=TSet(["ok", "res"]), QueryOuts=TSet(["full"]),
         Tokens=TSet(['"t1"']), Patterns=TSet([[], [">"]]),
-        Features=TSet(["unsub", "get", "call", "events", "custom", "delete", "reset", "close", "time", "stop", "quiesce"]),
+        Features=TSet(["unsub", "get", "call", "events", "custom", "delete", "reset", "close", "time", "stop", "stall", "quiesce"]),
         Weights=["int", "int", "int", "reply", "reply", "cli", "cli", "cli", "svc", "trig", "misc", "misc"],
         MaxSteps=45),
     depth=46)
@@ -234,7 +235,10 @@ FAMILIES["life"] = dict(
 EVENT_SHAPES = ["chg-partial", "chg-partial-obj", "chg-badval-first", "chg-ambiguous", "chg-unknown-action", "chg-emptyrid", "chg-badrid",
                 "chg-wildrid", "chg-notobject", "chg-badjson", "chg-null", "chg-novalues", "chg-string", "add-neg", "add-oob", "add-noidx-badval",
                 "add-badvalue", "add-delete-action", "add-stridx", "add-float", "add-huge", "add-badjson", "add-emptyrid", "remove-neg",
-                "remove-oob", "remove-len", "add-len1", "remove-str", "remove-badjson", "evt-noname", "query-nosubject", "query-badjson", "query-numsubject"]
+                "remove-oob", "remove-len", "add-len1", "remove-str", "remove-badjson", "evt-noname", "query-nosubject", "query-badjson", "query-numsubject",
+                "tok-empty", "tok-badjson", "tok-array", "tok-string", "tok-tidnum", "tok-unknownev",
+                "sys-reset-empty", "sys-reset-badjson", "sys-reset-string", "sys-reset-nums", "sys-treset-empty", "sys-treset-badjson", "sys-treset-string",
+                "sys-treset-nosubject", "sys-unknown"]
 REPLY_SHAPES = ["both", "neither", "noresult", "badjson", "empty", "null-result", "model-badvalue", "model-objvalue", "coll-delete", "model-array",
                 "coll-object", "model-emptyrid", "model-wildrid", "error-nocode", "error-string", "get-string", "result-array", "resource-badrid",
                 "resource-empty", "resource-wild", "resource-num", "events-notarray", "events-badevent", "events-removelen", "events-badchange", "events-and-model",
